@@ -39,6 +39,7 @@ func c01Params(e *Env) fwdParams {
 	c := e.C
 	p := fwdParams{
 		SystemPrepares: true,
+		OddPrepares:    true,
 		Hosts:          1 + c.Choose("hosts", 4),
 		NumConns:       []int{1, 2, 1, 2, 3, 4}[c.Choose("numconns", 6)],
 		Clients:        1 + c.Choose("clients", 4),
